@@ -2,7 +2,7 @@
     Statements only; every proof is [exact <lemma>]. *)
 From Coq Require Import String Ascii List Bool ZArith.
 From Raven Require Import Base.GoStr Model.Store Model.Ops Spec.UidSpec Proof.UidSpecB
-  Proof.StoreInv Proof.OpsInv Proof.UidHist.
+  Proof.StoreInv Proof.OpsInv Proof.UidHist Proof.UidAppend.
 Import ListNotations.
 Local Open Scope Z_scope.
 
@@ -77,6 +77,34 @@ Theorem c03_validity_fresh : forall t1 t2 t3 t4 t5 h1 h2 h3 n v,
   ~ (exists x, advertises (run (h1 ++ h2 ++ h3) (init5 t1 t2 t3 t4 t5)) n v x).
 Proof. exact c03_validity_fresh_l. Qed.
 Print Assumptions c03_validity_fresh.
+
+(** APPENDUID tells the truth: in a state satisfying the invariant, the UID (and
+    UIDVALIDITY) announced by a successful APPEND is the UID under which the new
+    message (the message row just stored, a fresh instance) is then found in that
+    mailbox.  PARTIAL: the hypothesis on message ids (existing links refer to
+    message rows below the counter) holds in every reachable state but is not part
+    of [Inv]; it is stated, not discharged, here (see NOTES/C03.md). *)
+Theorem c03_appenduid_truthful_partial : forall s f fl s' v u,
+  Inv s -> (forall l, In l (links s) -> lk_msg l < next_msg s) ->
+  step s (OAppend f fl) = (s', RAppendUid v u) ->
+  exists m l, In m (mboxes s') /\ In l (links s') /\ mb_name m = f /\ mb_validity m = v /\
+              lk_mbox l = mb_id m /\ lk_uid l = u /\ lk_msg l = next_msg s /\ lk_gid l = gser s.
+Proof. exact appenduid_truthful_l. Qed.
+Print Assumptions c03_appenduid_truthful_partial.
+
+(** ... and such an APPEND to an existing mailbox never fails (contrast with the
+    class copy_stale_uidnext, where it answers NO) *)
+Theorem c03_append_succeeds : forall s f fl m,
+  Inv s -> find_name s f = Some m ->
+  exists v u, snd (step s (OAppend f fl)) = RAppendUid v u.
+Proof. exact append_succeeds_l. Qed.
+Print Assumptions c03_append_succeeds.
+
+(** the invariant used above is the one established for every clean history *)
+Theorem c03_inv_reachable : forall t1 t2 t3 t4 t5 h,
+  clean (init5 t1 t2 t3 t4 t5) h = true -> Inv (run h (init5 t1 t2 t3 t4 t5)).
+Proof. exact inv_reachable_l. Qed.
+Print Assumptions c03_inv_reachable.
 
 (** non-vacuity: a clean history that uses every kind of operation (a UID COPY
     that finds nothing to copy, a RENAME of the empty INBOX, DELETE + CREATE of
